@@ -718,3 +718,72 @@ func zzC12wWrongTypedResponse() {
 	vf.Assert("locks-free", vf.Unlocked(&c.mu) && vf.RUnlocked(c.upstreams.mu) && vf.RUnlocked(c.downstreams.mu))
 	vf.Reach("end")
 }
+
+// C06.e: three requests of different kinds in flight at once through the public senders; the broker
+// answers in any of the six orders (optionally with a duplicate and an unknown id in between): every
+// caller gets exactly the response bearing its own request id, ids are even and pairwise distinct.
+func zzC06eThreeInFlight() {
+	tr := ZZNewFakeTransport()
+	c := ZZNewClientConn(tr, nil)
+	go c.readRequestLoop()
+	ctx := context.Background()
+	var r1 *message.UpstreamOpenResponse
+	var r2 *message.UpstreamMetadataAck
+	var r3 *message.DownstreamOpenResponse
+	var e1, e2, e3 error
+	d1, d2, d3 := false, false, false
+	go func() { r1, e1 = c.SendUpstreamOpenRequest(ctx, &message.UpstreamOpenRequest{SessionID: "s", QoS: message.QoSReliable}); d1 = true }()
+	go func() { r2, e2 = c.SendUpstreamMetadata(ctx, &message.UpstreamMetadata{Metadata: &message.BaseTime{Name: "n"}}); d2 = true }()
+	go func() { r3, e3 = c.SendDownstreamOpenRequest(ctx, &message.DownstreamOpenRequest{DesiredStreamIDAlias: 9, QoS: message.QoSReliable}); d3 = true }()
+	vf.Settle()
+	var id1, id2, id3 uint32
+	n := 0
+	for _, m := range tr.Msgs() {
+		switch q := m.(type) {
+		case *message.UpstreamOpenRequest:
+			id1 = uint32(q.RequestID)
+			n++
+		case *message.UpstreamMetadata:
+			id2 = uint32(q.RequestID)
+			n++
+		case *message.DownstreamOpenRequest:
+			id3 = uint32(q.RequestID)
+			n++
+		}
+	}
+	vf.Assert("three-requests-on-the-wire", n == 3 && len(tr.Msgs()) == 3)
+	vf.Assert("ids-even-and-distinct", id1%2 == 0 && id2%2 == 0 && id3%2 == 0 && id1 != id2 && id1 != id3 && id2 != id3)
+	vf.Assert("all-waiting", !d1 && !d2 && !d3)
+	a1 := &message.UpstreamOpenResponse{RequestID: message.RequestID(id1), AssignedStreamID: uuid.UUID{1}, AssignedStreamIDAlias: vf.U32("alias")}
+	a2 := &message.UpstreamMetadataAck{RequestID: message.RequestID(id2), ResultString: "meta"}
+	a3 := &message.DownstreamOpenResponse{RequestID: message.RequestID(id3), AssignedStreamID: uuid.UUID{3}}
+	answers := []message.Request{a1, a2, a3}
+	perm := [][3]int{{0, 1, 2}, {0, 2, 1}, {1, 0, 2}, {1, 2, 0}, {2, 0, 1}, {2, 1, 0}}[vf.Choose("order", 6)]
+	noise := vf.Choose("noise", 3) // 0 none, 1 duplicate of the first answer, 2 unknown id
+	for k, i := range perm {
+		c.msgRequestCh <- answers[i]
+		vf.Settle()
+		done := []bool{d1, d2, d3}
+		cnt := 0
+		for _, d := range done {
+			if d {
+				cnt++
+			}
+		}
+		vf.Assert("exactly-the-answered-callers-returned", cnt == k+1 && done[i])
+		if k == 0 && noise == 1 {
+			c.msgRequestCh <- answers[i]
+			vf.Settle()
+		}
+		if k == 0 && noise == 2 {
+			unk := vf.U32("unknown.id") // any id nobody is waiting for (the already answered one included)
+			vf.Assume(unk != uint32(answers[perm[1]].GetRequestID()) && unk != uint32(answers[perm[2]].GetRequestID()))
+			c.msgRequestCh <- &message.UpstreamCloseResponse{RequestID: message.RequestID(unk)}
+			vf.Settle()
+		}
+	}
+	vf.Assert("all-returned", d1 && d2 && d3)
+	vf.Assert("each-got-its-own-response", e1 == nil && e2 == nil && e3 == nil && r1 == a1 && r2 == a2 && r3 == a3)
+	vf.Assert("no-waiter-left", len(c.replyCh) == 0 && vf.Unlocked(&c.mu))
+	vf.Reach("end")
+}
